@@ -26,7 +26,7 @@ RULE = (
     "distinct by document text (+ path)."
 )
 
-IDENT = re.compile(r"^[_a-zA-Z][_a-zA-Z0-9]*$")
+IDENT = re.compile(r"[_a-zA-Z][_a-zA-Z0-9]*\Z")  # \Z, not $: "A\n" is not an identifier
 NOT_FIELD = {"true", "false", "null", "in", "as", "break", "const", "continue", "else", "for", "function", "if", "import", "let", "loop",
              "package", "namespace", "return", "var", "void", "while"}
 
